@@ -253,6 +253,7 @@ func (rb *RoundRobinBackend) AddBackend(backend Backend) {
 	defer rb.Unlock()
 	rb.backends = append(rb.backends, backend)
 	rb.backendMap[backend.GetAddress()] = backend
+	vt("rr.add", rb, backend.GetAddress(), len(rb.backends))
 	rb.backendChangeListenerMgr.HandleBackendAdded(backend, rb)
 }
 
@@ -280,6 +281,7 @@ func (rb *RoundRobinBackend) RemoveBackend(address string) {
 			}
 		}
 		delete(rb.backendMap, address)
+		vt("rr.rm", rb, address, len(rb.backends))
 		rb.backendChangeListenerMgr.HandleBackendRemoved(backend, rb)
 	}
 }
@@ -335,6 +337,7 @@ func (rb *RoundRobinBackend) getNextBackendIndex() (int, error) {
 		return 0, fmt.Errorf("no backend available")
 	}
 	rb.index = (rb.index + 1) % n
+	vt("rr.next", rb, rb.index, n)
 	return rb.index, nil
 }
 
@@ -345,12 +348,14 @@ func (rb *RoundRobinBackend) getBackend(index int) (Backend, error) {
 	if n <= 0 {
 		return nil, fmt.Errorf("no backend available at %d", index)
 	}
+	vt("rr.get", rb, index, n, rb.backends[index%n].GetAddress())
 	return rb.backends[index%n], nil
 }
 
 func (rb *RoundRobinBackend) getBackendCount() int {
 	rb.Lock()
 	defer rb.Unlock()
+	vt("rr.cnt", rb, len(rb.backends))
 	return len(rb.backends)
 
 }
